@@ -64,6 +64,9 @@ class LoopMixin:
             L = v.fields['objects']
             self.havoc_value(L, hint)
             return v
+        if isinstance(v, Instance) and v.cls.name in ('State', 'Observation'):
+            self.havoc_value(v.fields['grid'], hint + '_grid')
+            return v
         if isinstance(v, SList):
             if not self.is_2d(v):
                 raise Unsupported('havoc of 1-D list')
@@ -132,6 +135,24 @@ class LoopMixin:
                     raise Unsupported(f'loop invariant parameter {n} is not a local')
         return self.truth_term(self.call(fn, [], kwargs))
 
+    def step_checks(self, spec, env, lid, extra):
+        """per-iteration postconditions (`step=` of the loop spec): a dict name -> function"""
+        checks = spec.opts.get('step')
+        if not checks:
+            return
+        for name, fn in checks.items():
+            names = [a.arg for a in fn.node.args.args]
+            kwargs = {}
+            for nm in names:
+                if nm in extra:
+                    kwargs[nm] = extra[nm]
+                else:
+                    try:
+                        kwargs[nm] = env.lookup(nm)
+                    except KeyError:
+                        raise Unsupported(f'step check parameter {nm} is not a local')
+            self.loop_prove(f'{lid}.step:{name}', self.truth_term(self.call(fn, [], kwargs)))
+
     def snapshot_locals(self, env, names):
         from .verify import snapshot
         d = {}
@@ -179,6 +200,8 @@ class LoopMixin:
             if isinstance(v, Instance):
                 for fv in v.fields.values():
                     allowed.append(fv)
+                    if isinstance(fv, Instance) and fv.cls.name == 'Grid':
+                        allowed.extend(fv.fields.values())
         return objs, allowed
 
     # ---------------------------------------------------------------- foreach
@@ -237,7 +260,9 @@ class LoopMixin:
             if spec.opts.get('distinct', True):
                 self.assume(z3.Not(D(*key)))
             self.assign(node.target, p.elem, env)
+            before = self.snapshot_locals(env, list(env.vars.keys()))
             self.run_body_checked(node, env, spec, allowed)
+            self.step_checks(spec, env, lid, {'done': done, 'pre': pre, 'before': before})
             done2 = Builtin('done', lambda I, a, k: z3.Or(D(*self.elem_key(a[0])),
                                                           z3.And(*[x == y for x, y in zip(self.elem_key(a[0]), key)])))
             self.loop_prove(f'{lid}.inv-step', self.call_inv(spec, env, {'done': done2, 'pre': pre}))
@@ -277,8 +302,10 @@ class LoopMixin:
         self.assume(zbool(self.call_inv(spec, env, {'k': k, 'pre': pre, 'n': n, 'item': item})))
         if self.branch(k < zint(n)):
             self.assign(node.target, read(k), env)
+            before = self.snapshot_locals(env, list(env.vars.keys()))
             self.run_body_checked(node, env, spec, allowed)
             self.loop_prove(f'{lid}.inv-step', self.call_inv(spec, env, {'k': k + 1, 'pre': pre, 'n': n, 'item': item}))
+            self.step_checks(spec, env, lid, {'k': k, 'pre': pre, 'n': n, 'item': item, 'before': before})
             raise PathEnd()
         for nm in self.assigned_names(node.target):
             env.vars.pop(nm, None)
